@@ -406,6 +406,7 @@ func RunCell(c *Cell) (res *Result) {
 		res.Ops = append(res.Ops, r)
 	}
 	var sharedUSC *plugin.UnixSocketConfig
+	var sharedCfg *plugin.ClientConfig
 	cur := func() int { return len(clients) - 1 }
 	for _, op := range c.Ops {
 		bare, _, _ := strings.Cut(op, "!") // "!<expectation>" suffixes are for the driver
@@ -414,6 +415,12 @@ func RunCell(c *Cell) (res *Result) {
 		switch name {
 		case "new": // create the first client according to the launch method
 			cfg := mkConfig()
+			if c.Host.SharedConfig { // the application keeps ONE *ClientConfig and only swaps Cmd between NewClient calls
+				if sharedCfg == nil {
+					sharedCfg = cfg
+				}
+				cfg = sharedCfg
+			}
 			switch c.Host.Launch {
 			case "cmd":
 				cfg.Cmd = mkCmd()
@@ -718,6 +725,12 @@ func RunCell(c *Cell) (res *Result) {
 			}
 			lastCmd = cmd
 			cfg := mkConfig()
+			if c.Host.SharedConfig {
+				if sharedCfg == nil {
+					sharedCfg = cfg
+				}
+				cfg = sharedCfg
+			}
 			cfg.Cmd = cmd
 			clients = append(clients, plugin.NewClient(cfg))
 			stores, protos = append(stores, nil), append(protos, nil)
